@@ -49,6 +49,9 @@ def preserving(t, param):
             return False
     if t[0] == "agg" and t[1] == "PushIter::PushIter" and t[2]:
         return preserving(t[2][0], param)
+    if t[0] == "agg" and "::" in str(t[1]) and not str(t[1]).startswith("closure:") and len(t[2]) == 1:
+        # wrapped into another representation of the same item (`ReadSlice(Ok(inner))`)
+        return preserving(t[2][0], param)
     return False
 
 
